@@ -337,16 +337,41 @@ func takesDoc(m meth) bool {
 // through a Go map insert in random order: tree shapes, String() and Height() then differ from run to run, and the
 // set of serial outcomes cannot be enumerated by running each order once.)
 func loadDeterministic(s *spec, ms []meth) bool {
+	// a big valid document (12 entries): random insertion orders then give visibly different shapes
+	var big []byte
+	mkd := s.mk
+	if s.mkDoc != nil {
+		mkd = s.mkDoc
+	}
+	for _, name := range marshalNames {
+		if m := findMeth(ms, name); m != nil && m.typ.NumIn() == 0 {
+			if res, blocked := invokeSeq(mkd(12), *m, nil); !blocked && !res.panicked && len(res.out) > 0 && res.out[0].Kind() == reflect.Slice {
+				big = append([]byte(nil), res.out[0].Bytes()...)
+			}
+			break
+		}
+	}
 	for _, m := range ms {
 		if !takesDoc(m) {
 			continue
 		}
-		for _, seed := range []uint64{11, 12, 13, 14, 15, 16, 17, 18} {
+		for _, seed := range []uint64{0, 11, 12, 13, 14, 15, 16, 17, 18} {
 			var first string
-			for rep := 0; rep < 5; rep++ {
+			for rep := 0; rep < 8; rep++ {
 				inst := s.mk(2)
 				seqReset()
-				res, blocked := invokeSeq(inst, m, genArgs(m, vhlib.NewRng(seed), nil))
+				args := genArgs(m, vhlib.NewRng(seed), nil)
+				if seed == 0 {
+					if big == nil {
+						break
+					}
+					for i := range args {
+						if args[i].Kind() == reflect.Slice && args[i].Type().Elem().Kind() == reflect.Uint8 {
+							args[i] = reflect.ValueOf(append([]byte(nil), big...)).Convert(args[i].Type())
+						}
+					}
+				}
+				res, blocked := invokeSeq(inst, m, args)
 				if blocked {
 					return false
 				}
@@ -703,6 +728,40 @@ func structuredScenarios(s *spec, ms []meth, G, per int) []*scenario {
 	return scs
 }
 
+// sameKeyScenarios: two or three single calls that all address the SAME key / index / element of a prefilled instance
+// (every int and float argument is the key), over sampled unordered pairs of methods: read-vs-write and write-vs-write
+// contention on one entry (for bcache: also on an entry that is expired but still stored - the even keys).
+func sameKeyScenarios(s *spec, ms []meth, r *vhlib.Rng, max int) []*scenario {
+	type pair struct{ a, b int }
+	var pairs []pair
+	for i := range ms {
+		for j := i; j < len(ms); j++ {
+			pairs = append(pairs, pair{i, j})
+		}
+	}
+	for i := len(pairs) - 1; i > 0; i-- {
+		j := r.Intn(i + 1)
+		pairs[i], pairs[j] = pairs[j], pairs[i]
+	}
+	if len(pairs) > max {
+		pairs = pairs[:max]
+	}
+	var scs []*scenario
+	for i, p := range pairs {
+		k := 1 + (i % 6)
+		if i%7 == 6 { // negative: ranks / indexes counted from the end, absent keys
+			k = -1 - i%2
+		}
+		sc := &scenario{name: fmt.Sprintf("same-key(%d)/%s+%s", k, ms[p.a].name, ms[p.b].name), prefill: 6}
+		sc.threads = [][]scall{{{ms[p.a], r.U64(), intp(k)}}, {{ms[p.b], r.U64(), intp(k)}}}
+		if i%4 == 3 {
+			sc.threads = append(sc.threads, []scall{{ms[r.Intn(len(ms))], r.U64(), intp(k)}})
+		}
+		scs = append(scs, sc)
+	}
+	return scs
+}
+
 func randomScenario(s *spec, ms []meth, r *vhlib.Rng, i int) *scenario {
 	sc := &scenario{name: fmt.Sprintf("random#%d", i), prefill: r.Intn(7)}
 	nt := 2 + r.Intn(2)
@@ -835,6 +894,8 @@ func childType(o vhlib.Opts, name string, tab *table, out *childOut) {
 	G, iters := 8, 3000
 	if o.Thorough() {
 		G, iters = 12, 15000
+	} else if o.Tier == "widen" {
+		G, iters = 10, 4000
 	}
 	w := make([]int, len(ms))
 	for i := range w {
@@ -856,12 +917,12 @@ func childType(o vhlib.Opts, name string, tab *table, out *childOut) {
 	var panics []panicRec
 	var dl string
 	var calls int64
-	cfg := &stressCfg{s: s, tab: tab, methods: ms, weights: w1, G: G, iters: iters * 2 / 3, prefill: 6, timeout: 40 * time.Second, seed: o.Seed}
+	cfg := &stressCfg{s: s, tab: tab, methods: ms, weights: w1, G: G, iters: iters * 2 / 3, prefill: 6, timeout: 30 * time.Second, seed: o.Seed}
 	if nload > 0 && nload < len(ms) {
 		panics, dl, calls = runStress(cfg)
 	}
 	if dl == "" {
-		cfg = &stressCfg{s: s, tab: tab, methods: ms, weights: w, G: G, iters: iters / 2, prefill: 6, timeout: 40 * time.Second, seed: o.Seed + 1}
+		cfg = &stressCfg{s: s, tab: tab, methods: ms, weights: w, G: G, iters: iters / 2, prefill: 6, timeout: 30 * time.Second, seed: o.Seed + 1}
 		if nload == 0 {
 			cfg.iters = iters
 		}
@@ -870,12 +931,12 @@ func childType(o vhlib.Opts, name string, tab *table, out *childOut) {
 	}
 	out.Calls = calls
 	if dl != "" {
-		label, what := name, "deadlock (watchdog: calls still in flight after 40s)"
+		label, what := name, "deadlock (watchdog: calls still in flight after 30s)"
 		if fm, _ := cfg.lastErrMeth.Load().(string); fm != "" {
 			if e := tab.entryOf(s, fm); e != nil {
 				label = e.Type + "." + fm
 			}
-			what = "deadlock after failed " + fm + " (watchdog: calls still in flight after 40s)"
+			what = "deadlock after failed " + fm + " (watchdog: calls still in flight after 30s)"
 		}
 		out.Violations = append(out.Violations, violOut{label, what, dl})
 		return
@@ -910,6 +971,8 @@ func childType(o vhlib.Opts, name string, tab *table, out *childOut) {
 	nrand, reps, sg, sper := 12, 25, 6, 6
 	if o.Thorough() {
 		nrand, reps, sg, sper = 90, 50, 8, 12
+	} else if o.Tier == "widen" {
+		nrand, reps, sg, sper = 16, 30, 8, 8
 	}
 	msScen := ms
 	if !loadDeterministic(s, ms) {
@@ -927,6 +990,20 @@ func childType(o vhlib.Opts, name string, tab *table, out *childOut) {
 	for _, sc := range structuredScenarios(s, ms, sg, sper) {
 		judgeScenario(s, sc, reps/2+1, out, name+" "+sc.name)
 	}
+	nsk := 40
+	if o.Thorough() {
+		nsk = 400
+	} else if o.Tier == "widen" {
+		nsk = 80
+	}
+	if lightChild {
+		nsk = 0
+	}
+	batchWithKey = true
+	for _, sc := range sameKeyScenarios(s, msScen, r, nsk) {
+		judgeScenario(s, sc, reps, out, name+" same-key")
+	}
+	batchWithKey = false
 }
 
 // target: the offending method against the writers of the type (race hunt, halting at the first report)
@@ -965,11 +1042,11 @@ func childTarget(o vhlib.Opts, name string, tab *table, out *childOut) {
 	if o.Thorough() {
 		iters = 20000
 	}
-	cfg := &stressCfg{s: s, tab: tab, methods: ms, weights: w, G: 8, iters: iters, prefill: 64, timeout: 40 * time.Second, seed: o.Seed}
+	cfg := &stressCfg{s: s, tab: tab, methods: ms, weights: w, G: 8, iters: iters, prefill: 64, timeout: 30 * time.Second, seed: o.Seed}
 	panics, dl, calls := runStress(cfg)
 	out.Calls = calls
 	if dl != "" {
-		out.Violations = append(out.Violations, violOut{name, "deadlock (watchdog: calls still in flight after 40s)", dl})
+		out.Violations = append(out.Violations, violOut{name, "deadlock (watchdog: calls still in flight after 30s)", dl})
 	}
 	var seqClasses map[string]bool
 	seenP := map[string]bool{}
@@ -1013,21 +1090,53 @@ func childLost(o vhlib.Opts, name string, tab *table, out *childOut) {
 		}
 	}
 	r := vhlib.NewRng(o.Seed*31 + 5)
-	n, reps := 20, 120
+	n, reps := 4*len(writers)+8, 100
+	if n < 24 {
+		n = 24
+	}
+	if n > 56 {
+		n = 56
+	}
 	if o.Thorough() {
-		n, reps = 60, 200
+		n, reps = 160, 200
+	} else if o.Tier == "widen" {
+		n, reps = 2*n, 150
 	}
 	bad := 0
-	for k := 0; k < n && bad < 3; k++ {
+	batchWithKey = true
+	budget := 30 * time.Second // the targeted search is bounded in time as well as in scenarios
+	if o.Thorough() {
+		budget = 300 * time.Second
+	} else if o.Tier == "widen" {
+		budget = 50 * time.Second
+	}
+	t0 := time.Now()
+	for k := 0; k < n && bad < 3 && time.Since(t0) < budget; k++ {
 		sc := &scenario{name: fmt.Sprintf("targeted#%d", k), prefill: 3000 + r.Intn(3000)}
-		sc.threads = append(sc.threads, []scall{{*target, r.U64(), nil}})
-		if k%3 == 0 || len(writers) == 0 { // the method against itself
-			sc.threads = append(sc.threads, []scall{{*target, r.U64(), nil}})
-		} else {
-			sc.threads = append(sc.threads, []scall{{writers[r.Intn(len(writers))], r.U64(), nil}})
+		// four scenarios per writer: all calls on one EVEN key (2, 4, 6; for bcache an expired-but-stored entry) / random
+		// arguments / all integer arguments NEGATIVE (-1, -2: ranks and indexes counted from the end, absent keys) /
+		// all calls on one odd key. In the negative phase every other writer slot is the method against itself.
+		var key *int
+		wi, phase := k/4, k%4
+		switch phase {
+		case 0:
+			key = intp(2 + 2*(wi%3))
+		case 2:
+			key = intp(-1 - wi%2)
+		case 3:
+			key = intp(1 + 2*(wi%3))
 		}
-		if k%2 == 1 && len(writers) > 0 {
-			sc.threads = append(sc.threads, []scall{{writers[r.Intn(len(writers))], r.U64(), nil}})
+		if key != nil {
+			sc.name += fmt.Sprintf("/same-key(%d)", *key)
+		}
+		sc.threads = append(sc.threads, []scall{{*target, r.U64(), key}})
+		if len(writers) == 0 || (phase == 2 && wi%2 == 1) || (phase == 1 && wi%5 == 4) { // the method against itself
+			sc.threads = append(sc.threads, []scall{{*target, r.U64(), key}})
+		} else { // the writers in turn
+			sc.threads = append(sc.threads, []scall{{writers[(wi+int(o.Seed))%len(writers)], r.U64(), key}})
+		}
+		if k%4 == 3 && len(writers) > 0 {
+			sc.threads = append(sc.threads, []scall{{writers[r.Intn(len(writers))], r.U64(), key}})
 		}
 		before := len(out.Cases)
 		judgeScenario(s, sc, reps, out, name+" lost-update")
@@ -1051,6 +1160,8 @@ func childLost(o vhlib.Opts, name string, tab *table, out *childOut) {
 	out.Notes["non_serial_observations"] = bad
 }
 
+var lightChild bool
+
 func runChild(o vhlib.Opts) {
 	parts := strings.SplitN(o.Extra, ":", 3)
 	out := &childOut{Mode: parts[1], Name: parts[2], Notes: map[string]interface{}{"gomaxprocs": runtime.GOMAXPROCS(0)}}
@@ -1062,7 +1173,8 @@ func runChild(o vhlib.Opts) {
 		return
 	}
 	switch parts[1] {
-	case "type":
+	case "type", "typeL": // typeL: the second GOMAXPROCS value of a type in the quick tier, without the same-key scenarios
+		lightChild = parts[1] == "typeL"
 		childType(o, parts[2], tab, out)
 	case "target":
 		childTarget(o, parts[2], tab, out)
@@ -1147,7 +1259,8 @@ func roCrossCheck(w *vhlib.Writer, tab *table, rng *vhlib.Rng) {
 	fm("Values#1", func(m map[int]int) { bmap.Values(m) })
 }
 
-func delegateSanity(w *vhlib.Writer, tab *table, seed uint64) {
+func delegateSanity(w *vhlib.Writer, tab *table, o vhlib.Opts) {
+	seed := o.Seed
 	for _, s := range registry() {
 		if s.mkU == nil {
 			continue
@@ -1190,38 +1303,70 @@ func delegateSanity(w *vhlib.Writer, tab *table, seed uint64) {
 		}
 		tm, _ := usableMethods(twin)
 		r := vhlib.NewRng(seed*17 + 3)
+		// several traces; the first step on which wrapper and wrapped container differ (result or state) ends the search
+		// and becomes the case, with the calls that led to it as the replay
+		ntr := 3
+		if o.Thorough() {
+			ntr = 12
+		} else if o.Tier == "widen" {
+			ntr = 6
+		}
 		var a, b []int64
-		steps := 0
-		var trace []string
-		for k := 0; k < 80 && len(ms) > 0; k++ {
-			m := ms[r.Intn(len(ms))]
-			um := findMeth(tm, m.name)
-			if um == nil || um.typ.NumIn() != m.typ.NumIn() {
-				continue
+		steps, diverged := 0, false
+		var first []string
+		for tr := 0; tr < ntr && !diverged && len(ms) > 0; tr++ {
+			seqReset()
+			safe, twin = s.mk(4), s.mkU(4)
+			var trace []string
+			for k := 0; k < 80; k++ {
+				m := ms[r.Intn(len(ms))]
+				um := findMeth(tm, m.name)
+				if um == nil || um.typ.NumIn() != m.typ.NumIn() {
+					continue
+				}
+				u2 := *um
+				u2.single = m.single // identical arguments on both sides
+				um = &u2
+				as := r.U64()
+				args := genArgs(m, vhlib.NewRng(as), nil)
+				ra, blocked := invokeSeq(safe, m, args)
+				if blocked {
+					break
+				}
+				rb := invoke(twin, *um, genArgs(*um, vhlib.NewRng(as), nil))
+				ea, eb := encResult(m.name, ra, s.sorted), encResult(m.name, rb, s.sorted)
+				if s.name != "lscq.QueueSafe" {
+					ea = append(append(ea, -6), safeDump(s, safe)...)
+					eb = append(append(eb, -6), safeDump(s, twin)...)
+				}
+				trace = append(trace, m.name+"("+clipStr(argString(args), 60)+")")
+				steps++
+				if fmt.Sprint(ea) != fmt.Sprint(eb) {
+					diverged = true
+					tn := s.name
+					if e := tab.entryOf(s, m.name); e != nil {
+						tn = e.Type
+					}
+					term := fmt.Sprintf("CDelegate %s %s", zl(digest(ea)), zl(digest(eb)))
+					w.Case(term, tn+"."+m.name+" wrapper differs from the container it wraps", true, nil, map[string]interface{}{
+						"type": s.name, "prefill": 4, "calls": trace, "diverges_at": m.name,
+						"wrapper_result_then_state": ea, "container_result_then_state": eb})
+					break
+				}
+				a = append(append(a, ea...), -5)
+				b = append(append(b, eb...), -5)
 			}
-			u2 := *um
-			u2.single = m.single // identical arguments on both sides
-			um = &u2
-			as := r.U64()
-			ra, blocked := invokeSeq(safe, m, genArgs(m, vhlib.NewRng(as), nil))
-			if blocked {
-				break
-			}
-			rb := invoke(twin, *um, genArgs(*um, vhlib.NewRng(as), nil))
-			a = append(a, encResult(m.name, ra, s.sorted)...)
-			b = append(b, encResult(m.name, rb, s.sorted)...)
-			if s.name != "lscq.QueueSafe" {
-				a = append(a, safeDump(s, safe)...)
-				b = append(b, safeDump(s, twin)...)
-			}
-			a, b = append(a, -5), append(b, -5)
-			steps++
-			if len(trace) < 12 {
-				trace = append(trace, m.name)
+			if tr == 0 {
+				first = trace
+				if len(first) > 12 {
+					first = first[:12]
+				}
 			}
 		}
-		term := fmt.Sprintf("CDelegate %s %s", zl(digest(a)), zl(digest(b)))
-		w.Case(term, "wrapper = wrapped container on a sequential trace "+s.name, steps > 5, nil, map[string]interface{}{"type": s.name, "steps": steps, "first_calls": trace})
+		if !diverged {
+			term := fmt.Sprintf("CDelegate %s %s", zl(digest(a)), zl(digest(b)))
+			w.Case(term, "wrapper = wrapped container on sequential traces "+s.name, steps > 5, nil, map[string]interface{}{"type": s.name, "steps": steps, "first_calls": first})
+		}
 	}
 }
 
@@ -1390,7 +1535,7 @@ func main() {
 	}
 	// ---- sequential ties
 	roCrossCheck(w, tab, rng.Fork())
-	delegateSanity(w, tab, o.Seed)
+	delegateSanity(w, tab, o)
 
 	// ---- concurrent work in children
 	gmps := []int{2, 4, 16}
@@ -1400,12 +1545,55 @@ func main() {
 		if o.Thorough() {
 			pick = gmps
 		}
-		for _, g := range pick {
-			jobs = append(jobs, &job{mode: "type", name: s.name, gmp: g, halt: true})
+		if o.Tier == "widen" { // the widened search spends its budget on the offending methods
+			pick = pick[:1]
+		}
+		for gi, g := range pick {
+			mode := "type"
+			if (gi > 0 && !o.Thorough()) || o.Tier == "widen" {
+				mode = "typeL"
+			}
+			jobs = append(jobs, &job{mode: mode, name: s.name, gmp: g, halt: true})
+		}
+	}
+	// the methods to stress for an offending entry: itself if it is exported, else the exported entry points that
+	// forward to it (bcache.BCache.Get -> bCache.get)
+	var targets []string
+	seenT := map[string]bool{}
+	addT := func(n string) {
+		if !seenT[n] {
+			seenT[n] = true
+			targets = append(targets, n)
 		}
 	}
 	for _, f := range tab.Offenders {
 		n := f.Type + "." + f.Method
+		if e := tab.byName[n]; e == nil || e.Exported {
+			addT(n)
+			continue
+		}
+		found := false
+		for i := range tab.Entries {
+			e := &tab.Entries[i]
+			if !e.Exported {
+				continue
+			}
+			for cur, hops := e, 0; cur != nil && len(cur.Self) > 0 && hops < 6; hops++ {
+				nx := cur.Self[0].Kind + "." + cur.Self[0].Method
+				if nx == n {
+					addT(e.Type + "." + e.Method)
+					found = true
+					break
+				}
+				cur = tab.byName[nx]
+			}
+		}
+		if !found {
+			addT(n)
+		}
+	}
+	w.Notes["targeted_methods"] = targets
+	for _, n := range targets {
 		for _, g := range gmps {
 			jobs = append(jobs, &job{mode: "target", name: n, gmp: g, halt: true})
 		}
@@ -1415,14 +1603,18 @@ func main() {
 		j.dir = filepath.Join(o.Out, "children", fmt.Sprintf("%03d_%s_%s_p%d", i, j.mode, strings.ReplaceAll(j.name, "/", "_"), j.gmp))
 	}
 	// offender jobs first (they are the point when the obligation is broken)
-	sort.SliceStable(jobs, func(a, b int) bool { return (jobs[a].mode != "type") && (jobs[b].mode == "type") })
+	isType := func(m string) bool { return m == "type" || m == "typeL" }
+	sort.SliceStable(jobs, func(a, b int) bool { return !isType(jobs[a].mode) && isType(jobs[b].mode) })
 	par := runtime.NumCPU() / 2
 	if par < 2 {
 		par = 2
 	}
 	sem := make(chan struct{}, par)
 	var wg sync.WaitGroup
-	tmo := 150 * time.Second
+	tmo := 100 * time.Second
+	if o.Tier == "widen" {
+		tmo = 75 * time.Second
+	}
 	if o.Thorough() {
 		tmo = 900 * time.Second
 	}
@@ -1450,7 +1642,7 @@ func main() {
 			slowest = append(slowest, fmt.Sprintf("%s %.0fs", id, j.dur.Seconds()))
 		}
 		hint := ""
-		if j.mode != "type" {
+		if !isType(j.mode) {
 			hint = j.name
 		}
 		for _, r := range parseRaces(j.raceTxt+"\n"+j.stderr, tab, hint) {
@@ -1469,7 +1661,7 @@ func main() {
 			for _, v := range j.out.Violations {
 				w.Violation(v.Label, v.What, map[string]interface{}{"job": id, "seed": o.Seed, "detail": v.Detail})
 			}
-			if j.mode == "type" {
+			if isType(j.mode) {
 				if ms, ok := j.out.Notes["methods"].([]interface{}); ok {
 					for _, m := range ms {
 						methodsSeen[j.name+"."+fmt.Sprint(m)] = true
